@@ -91,6 +91,29 @@ Definition handler_und (s : str) : option str :=
   | [] => None
   end.
 
+(* The same handler as DATA, the way T1 translates its source (Generated/Gen_Strop.v: <lang>_handler_pre/_grp/_tmpl):
+     m = re.match(r"<pre>(<grp>)", stropped)                 -- one capturing group, at the end of the pattern
+     if m: return <pieces>                                    -- a literal, m.group(1).lower(), m.group(1), stropped[m.end():]
+     raise pending_error
+   `mt pre` hands every candidate end of <pre> (in Python's priority order) to `mt grp`; the first overall success fixes
+   where the group starts (s1) and ends (s2). *)
+Inductive rpiece := RLit (l : str) | RGroupLower | RGroup | RRest.
+
+Definition handler_gen (u : uni) (pre grp : re) (tmpl : list rpiece) (s : str) : option str :=
+  match mt u pre (fun at1 s1 => mt u grp (fun _ s2 => Some (s1, s2)) at1 s1) true s with
+  | Some (s1, s2) =>
+      let g := firstn (length s1 - length s2) s1 in
+      Some (flat_map (fun p => match p with RLit l => l | RGroupLower => lower g | RGroup => g | RRest => s2 end) tmpl)
+  | None => None
+  end.
+
+Definition und_cls : cls := {| c_neg := false; c_ranges := [(95, 95)]; c_space := false; c_digit := false; c_word := false |}.
+Definition upper_cls : cls := {| c_neg := false; c_ranges := [(65, 90)]; c_space := false; c_digit := false; c_word := false |}.
+(* what `handler_und` above was written for:  ^_+  ([A-Z]?)  "_" + group.lower() + rest *)
+Definition model_handler_pre : re := Seq Bol (Seq (Cls und_cls) (Star (Cls und_cls))).
+Definition model_handler_grp : re := Alt (Seq (Cls upper_cls) Eps) Eps.
+Definition model_handler_tmpl : list rpiece := [RLit [95]; RGroupLower; RRest].
+
 Inductive res := Ok (t : str) | ErrRuntime | ErrValue.
 
 Definition run_handler (h : handler) (stropped : str) : res :=
@@ -101,6 +124,17 @@ Definition run_handler (h : handler) (stropped : str) : res :=
 
 (* result of one transform step: a string, KeyError (unknown identifier type) or RuntimeError *)
 Inductive tres := TOk (t : str) | TKeyError | TRuntimeError.
+
+(* steps of TokenEncoder.strop (see run_steps below) *)
+Inductive xform := XEncode | XKeyword | XPattern.      (* self._encode | self._strop_by_keyword | self._strop_by_pattern *)
+Inductive hsel := HStropping | HEncoding.               (* self._stropping_failure_handler | self._encoding_failure_handler *)
+Inductive pstep := PApply (x : xform) | PCheck (x : xform) (h : hsel) | PReverify (xs : list xform).
+
+(* the step list Gen/Strop.v's `strop` was written for *)
+Definition model_pipeline (reverify : bool) : list pstep :=
+  [PApply XEncode; PApply XKeyword; PApply XPattern;
+   PCheck XPattern HStropping; PCheck XKeyword HStropping; PCheck XEncode HEncoding]
+  ++ (if reverify then [PReverify [XPattern; XKeyword; XEncode]] else []).
 
 Section Strop.
   Variable u : uni.          (* Python's \s \d \w tables (Gen_Uni.py_uni) *)
@@ -256,6 +290,42 @@ Section Strop.
       end
     | _ => ErrRuntime
     end.
+
+  (* ---- the body of TokenEncoder.strop as DATA: the T1 walker (tools/translators/gen_c09.py, strop_pipeline) turns the
+          statements of the method into a list of steps (Generated/Gen_Strop.v: strop_pipeline); `run_pipeline` is their
+          meaning; StropThmPipe.v proves strop = run_pipeline model_pipeline and Properties/C09.v that the regenerated
+          list IS model_pipeline.  `cur` is the variable the previous step assigned (initially the parameter `token`). ---- *)
+  Definition xf (x : xform) : str -> str -> bool -> tres :=
+    match x with XEncode => encode | XKeyword => strop_by_keyword | XPattern => strop_by_pattern end.
+
+  Definition hof (h : hsel) : handler :=
+    match h with HStropping => sc_strop_handler cfg | HEncoding => sc_enc_handler cfg end.
+
+  Fixpoint run_steps (steps : list pstep) (ty cur : str) : res :=
+    match steps with
+    | [] => Ok cur                                  (* return cur *)
+    | PApply x :: rest =>                           (* v = self._do_for_type_and_all(self.<x>, cur, type_lower, False) *)
+        match do_for_type_and_all (xf x) cur ty false with
+        | TOk t => run_steps rest ty t
+        | _ => ErrRuntime
+        end
+    | PCheck x h :: rest =>                         (* try: self._do_for_type_and_all(self.<x>, cur, type_lower, True)
+                                                       except RuntimeError as e:
+                                                           if self.<h> is None: raise e
+                                                           cur = self.<h>(self, cur, token_type, e) *)
+        match checked (do_for_type_and_all (xf x) cur ty true) (hof h) cur with
+        | Ok t => run_steps rest ty t
+        | e => e
+        end
+    | PReverify xs :: rest =>                       (* return self.<m>(cur, type_lower); <m>: the dry checks xs, return cur *)
+        if forallb (fun x => dry_ok (do_for_type_and_all (xf x) cur ty true)) xs
+        then run_steps rest ty cur else ErrRuntime
+    end.
+
+  (* type_lower = token_type.lower(); if type_lower == "all": raise ValueError(...); <steps> *)
+  Definition run_pipeline (steps : list pstep) (token_type token : str) : res :=
+    let ty := lower token_type in
+    if str_eqb ty ty_all then ErrValue else run_steps steps ty token.
 
   (* ---- functools.lru_cache(maxsize) around strop: key = (token, token_type); only returned
           values are cached (an exception propagates and stores nothing); on a hit the entry
